@@ -21,7 +21,7 @@ import (
 func vInflateEvents(evs []string) []string {
 	var extra []string
 	for _, e := range evs {
-		if !strings.HasPrefix(e, "write/") {
+		if !strings.HasPrefix(e, "write/") && !strings.HasPrefix(e, "feed/") {
 			continue
 		}
 		f := strings.Split(e, "/")
